@@ -11,6 +11,13 @@ observations and the FROZEN specification tables (/verif/spec), never from
 the live class tables.
 """
 import json
+import os as _os
+import sys as _sys
+
+# another hash seed than the parent's (set / dict iteration orders must not matter): re-exec once, stdin is inherited
+if __name__ == "__main__" and _os.environ.get("PYTHONHASHSEED") != "20260929":
+    _os.environ["PYTHONHASHSEED"] = "20260929"
+    _os.execv(_sys.executable, [_sys.executable, "-B"] + _sys.argv)
 import os
 import sys
 import warnings
@@ -253,7 +260,7 @@ def alt_inputs(obj, back, text, opts, allow):
     import io
     ver = cid_of(obj).replace("custom/", "")[:3]
     out = []
-    for how in ("dict", "file", "bytes", "version"):
+    for how in ("dict", "file", "bytes", "version", "interoperability", "object"):
         try:
             kwv = {}
             if how == "dict":
@@ -262,6 +269,11 @@ def alt_inputs(obj, back, text, opts, allow):
                 src = io.StringIO(text)
             elif how == "bytes":
                 src = text.encode("utf-8")
+            elif how == "interoperability":
+                src = text                  # the relaxed identifier rules accept everything the strict ones accept
+                kwv = {"interoperability": True}
+            elif how == "object":
+                src = back                  # a mapping that is already an object
             else:
                 src = text
                 if ver not in ("2.0", "2.1"):
@@ -668,8 +680,12 @@ if __name__ == "__main__":
                 {"kind": "library-not-importable-in-this-process", "opts": {},
                  "detail": {"error": IMPORT_ERROR, "TZ": os.environ.get("TZ")}}]}))
             continue
-        res = observe_case(case)
-        fails = judge(case, res)
-        res = slim(res)
+        try:
+            res = observe_case(case)
+            fails = judge(case, res)
+            res = slim(res)
+        except Exception as _oe:  # noqa: BLE001  (the oracle itself must not stop the check: reported as a replayable case)
+            res = {"created": False, "err": "oracle"}
+            fails = [{"kind": "oracle-could-not-evaluate-the-case", "opts": {}, "detail": {"error": type(_oe).__name__ + ": " + str(_oe)[:300]}}]
         res["fails"] = fails
         print(json.dumps(res))
